@@ -1545,45 +1545,50 @@ class LifecycleMon(Monitor):
     prop = 'C20'
 
     def __init__(self):
-        self.registered = []      # names in registration order
-        self.inits = {}
+        self.registered = []      # asset ids in registration order
+        self.inits = {}           # asset id -> number of initialisations
 
     def start(self, w):
-        self.registered = [a.name for a in w.system._assets]
+        self.registered = [a.id for a in w.system._assets]
         for t in w.hub.tlog:
             if t[0] == 'initialize':
-                self.inits[t[1]] = self.inits.get(t[1], 0) + 1
+                self.inits[t[3]] = self.inits.get(t[3], 0) + 1
         for a in w.system._assets:
-            if self.inits.get(a.name, 0) != 1:
-                raise Violation('initialised_once', f'{a.name} initialised {self.inits.get(a.name, 0)} times by the first simulate()')
+            if self.inits.get(a.id, 0) != 1:
+                raise Violation('initialised_once', f'{a.name} initialised {self.inits.get(a.id, 0)} times by the first simulate()')
             if a.env is not w.env:
                 raise Violation('initialised_once', f'{a.name}.env is not the environment of its system after initialisation')
+        if len(set(self.registered)) != len(self.registered):
+            raise Violation('unique_ids', f'asset ids are not unique: {sorted(self.registered)}')
         self.lookup(w)
 
     def after(self, w, label, ev):
-        names = set(self.registered)
         created = [t for t in w.hub.tlog if t[0] == 'created']
+        known = set(self.registered) | set(w.dev[c[1]].id for c in created if c[2] not in ('obj', 'group'))
         for t in w.hub.tlog:
-            if t[0] == 'initialize' and (t[1] in names or any(c[1] == t[1] for c in created)):
-                self.inits[t[1]] = self.inits.get(t[1], 0) + 1
+            if t[0] == 'initialize' and t[3] in known:
+                self.inits[t[3]] = self.inits.get(t[3], 0) + 1
         for c in created:
             if c[2] in ('obj', 'group'):
                 continue
-            self.registered.append(c[1])
             o = w.dev[c[1]]
-            if self.inits.get(c[1], 0) != 1:
+            self.registered.append(o.id)
+            if self.inits.get(o.id, 0) != 1:
                 raise Violation('late_initialised', f'{c[1]} ({c[2]}) created at t={c[3]} while the simulation is running was '
-                                                    f'initialised {self.inits.get(c[1], 0)} times')
+                                                    f'initialised {self.inits.get(o.id, 0)} times')
             if o.env is not w.env:
                 raise Violation('late_initialised', f'{c[1]} ({c[2]}) created at t={c[3]}: its environment is {o.env!r} after '
                                                     f'construction, so it cannot take part in the simulation')
             w.facts.append('late_created:' + c[2])
         for n, k in self.inits.items():
             if k > 1:
-                raise Violation('initialised_once', f'{n} initialised {k} times')
-        got = [a.name for a in w.system._assets]
+                raise Violation('initialised_once', f'asset #{n} initialised {k} times')
+        got = [a.id for a in w.system._assets]
         if got != self.registered:
-            raise Violation('registry', f'registered assets {got}, expected (creation order) {self.registered}')
+            raise Violation('registry', f'registered assets {[a.name for a in w.system._assets]} (ids {got}), expected ids in '
+                                        f'creation order {self.registered}')
+        if len(set(got)) != len(got):
+            raise Violation('unique_ids', f'asset ids are not unique: {sorted(got)}')
         if created:
             self.lookup(w)
 
